@@ -394,6 +394,12 @@ class Cache(Filter[Iterable[Any], Iterable[Any]]):
     def protected(self) -> bool:
         return self._protected
 
+    def __getstate__(self):
+        #a partially filled cache holds a live iterator that can't be pickled so we pickle it as empty
+        state = self.__dict__.copy()
+        if state['_iter'] is not None: state['_iter'] = state['_cache'] = None
+        return state
+
     def filter(self, items: Iterable[Any]) -> Iterable[Any]:
         n_slice = self._n_slice
 
